@@ -753,7 +753,12 @@ func TestRace(t *testing.T) {
 				}
 				if o.ok != s.ok || o.hash != s.hash {
 					sc, _ := json.Marshal(pc.g)
-					res.Violations = append(res.Violations, Violation{Property: "C19", Clause: "result-differs-from-solo", Key: "concurrent-load-result-differs-from-solo",
+					key := "concurrent-load-result-differs-from-solo"
+					if pc.g.ShareEnv {
+						// the two loads were handed ONE Environment map (see the known finding on loader.projectName)
+						key += ":shared-environment-map"
+					}
+					res.Violations = append(res.Violations, Violation{Property: "C19", Clause: "result-differs-from-solo", Key: key,
 						Detail: fmt.Sprintf("layout %s: alone ok=%v hash=%s err=%q; in a group of %d: ok=%v hash=%s err=%q", name, s.ok, s.hash, s.err, len(pc.outs), o.ok, o.hash, o.err),
 						Engine: "race", RunIndex: pc.idx, RunSeed: pc.g.Seed, Scenario: sc})
 				}
